@@ -175,6 +175,7 @@ impl<T> core::ops::Deref for Gc<T> {
 #[derive(Clone)]
 pub enum SteelVal {
     Closure(Gc<ByteCodeLambda>),
+    Pair(Gc<Pair>),
     BoolV(bool),
     NumV(f64),
     IntV(isize),
